@@ -85,7 +85,26 @@ def rule_F2(ctx):
     """Mutable results of memoised functions are never mutated by their callers."""
     r = RuleResult('F2', 'results of memoised functions are not mutated in place')
     cached = {f.key: f for f in cached_functions(ctx)}
-    for n, edges in ctx.callgraph().items():
+    # pass-through wrappers: every return hands back, unchanged, the result of a memoised function (or of such a wrapper)
+    cg = ctx.callgraph()
+    for _ in range(3):
+        for n, edges in cg.items():
+            g = ctx.m.funcs[n[0]]
+            if g.key in cached:
+                continue
+            rets = [x for x in own_walk(g.node) if isinstance(x, ast.Return) and x.value is not None]
+            if not rets:
+                continue
+            srcs = []
+            for x in rets:
+                hit = [callee for (callee, cs) in edges if cs.node is x.value and callee[0] in cached]
+                if not hit:
+                    srcs = None
+                    break
+                srcs.append(hit[0])
+            if srcs:
+                cached[g.key] = cached[srcs[0][0]]
+    for n, edges in cg.items():
         caller = ctx.m.funcs[n[0]]
         fa = ctx.fa(n)
         names = {}
